@@ -48,7 +48,7 @@ def gen_value(rng, k, tag=0):
         neg = '-' if rng.random() < 0.3 and (ip or fr != '.0') else ''
         return (neg + str(ip) + fr).encode()
     if k == 'string':
-        n = rng.choice((1, 1, 2, 3, 5, 8, 20, rng.randrange(1, 60)))
+        n = rng.choice((0, 1, 1, 2, 3, 5, 8, 20, rng.randrange(1, 60)))      # the empty string is a value too
         s = bytes(rng.choice(PRINTABLE) for _ in range(n))
         if rng.random() < 0.15:
             s = s[:1] + b'=' + s[1:]
